@@ -15,6 +15,7 @@ package dns
 //@   stored at "byte((adc - 1) >> 8)," hi: uint16(adc - 1) / 256
 //@   stored at "byte(adc - 1)," lo: uint16(adc - 1) % 256
 //@   exit time: ret0 == nil ==> incept <= now && now <= expire
+//@   assert at "return ErrTime" outside: now < incept || now > expire
 //@   exit signer: ret0 == nil ==> callres("equal")
 //@   exit spans: ret0 == nil ==> 12 <= bodyend && bodyend + 11 <= sigstart && sigstart + 18 <= sigend && sigend <= len(buf)
 //@   assert at "bodyend := offset" skipped: uint16(anc + auc + adc) == 0 || i == uint16(anc + auc + adc)
